@@ -10,8 +10,20 @@ def hexs(b):
     return bytes(b).hex()
 
 
-def pretend_opt():
-    return "--pretend-valid=%s:%s,%s:%s" % (hexs(gen.PRETEND_SIG), hexs(gen.PRETEND_KEY), hexs(gen.PRETEND_SIG2), hexs(gen.PRETEND_KEY2))
+def pretend_opt(rng=None):
+    """the --pretend-valid list; its *shape* varies (repeated pairs, one signature for two keys, one key for two
+    signatures), the pairs the workloads use (SIG:KEY, SIG2:KEY2) are always in it and listed last"""
+    pairs = [(gen.PRETEND_SIG, gen.PRETEND_KEY), (gen.PRETEND_SIG2, gen.PRETEND_KEY2)]
+    if rng is not None and rng.chance(35):
+        extra = rng.choice([
+            [(gen.PRETEND_SIG, gen.PRETEND_KEY)],                                   # the same pair twice
+            [(gen.PRETEND_SIG2, gen.PRETEND_KEY)],                                  # a key that is later re-listed with another signature
+            [(gen.PRETEND_SIG, gen.PRETEND_KEY2)],                                  # a signature that is later re-listed with another key
+            [(gen.PRETEND_SIG, gen.PRETEND_KEY3)],                                  # ... with a key that appears nowhere else
+            [(bytes.fromhex("3006020101020101" + "01"), bytes.fromhex("02" + "ee" * 32))],
+        ])
+        pairs = extra + pairs
+    return "--pretend-valid=" + ",".join("%s:%s" % (hexs(a), hexs(b)) for a, b in pairs)
 
 
 def session_scenario(rng, purpose="rewind", allow_spend=True):
@@ -47,9 +59,16 @@ def session_scenario(rng, purpose="rewind", allow_spend=True):
         g = gen.ScriptGen(rng, max_ops=12)
         g.build(rng.range(1, 5))
         red = S.asm(g.toks + [1])
+        below = [hexs(S.scriptnum(rng.range(17, 500))) for _ in range(rng.range(0, 2))]
+        if rng.chance(30):
+            # a redeem script that itself has the shape of a standard output template
+            pre = rng.bytes(rng.range(2, 30))
+            red = rng.choice([bytes([0xa9, 0x14]) + T.hash160(pre) + bytes([0x87]),
+                              bytes([0x76, 0xa9, 0x14]) + T.hash160(pre) + bytes([0x88, 0x75, 0x51])])
+            below.append(hexs(pre))
         h = T.hash160(red) if rng.chance(75) else rng.bytes(20)        # a wrong hash: the switch to the P2SH script is refused
         scn["script"] = hexs(bytes([0xa9, 0x14]) + h + bytes([0x87]))
-        scn["stack"] = [hexs(S.scriptnum(rng.range(17, 500))) for _ in range(rng.range(0, 2))] + [hexs(red)]
+        scn["stack"] = below + [hexs(red)]
         if rng.chance(10):
             scn["opts"].append("--modify-flags=-P2SH")
         scn["features"] = ["p2sh-plain"]
@@ -157,7 +176,7 @@ def session_scenario(rng, purpose="rewind", allow_spend=True):
     if allow_disabled:
         scn["opts"].append("-z")
     if pretend:
-        scn["opts"].append(pretend_opt())
+        scn["opts"].append(pretend_opt(rng))
     if rng.chance(10):
         scn["opts"].append("--quiet")
     scn["features"] = sorted(g.features)
